@@ -12,9 +12,8 @@ import sys
 import time
 import traceback
 from collections import Counter
-from concurrent.futures import ProcessPoolExecutor
-from concurrent.futures.process import BrokenProcessPool
 import multiprocessing
+import multiprocessing.connection
 from pathlib import Path
 
 VERIF = Path(__file__).resolve().parent.parent
@@ -137,6 +136,7 @@ class SessionBase:
 
     def __init__(self, world, props, known=None):
         self.world = world
+        self.world_initial = world       # what replay files carry; engines that edit documents work on a copy
         self.props = set(props)
         self.known = known if known is not None else KnownFindings()
         self.oplog = []
@@ -218,7 +218,7 @@ class SessionBase:
 
     def record(self):
         v = self.violation
-        return {'engine': self.ENGINE, 'props': sorted(self.props), 'world': self.world, 'oplog': self.oplog,
+        return {'engine': self.ENGINE, 'props': sorted(self.props), 'world': self.world_initial, 'oplog': self.oplog,
                 'violation': None if v is None else {'property': v.prop, 'kind': v.kind, 'signature': v.signature,
                                                      'step': v.step, 'detail': v.detail},
                 'event_digest': self.event_digest()}
@@ -227,6 +227,8 @@ class SessionBase:
 # --------------------------------------------------------------------------------------------------------------
 # Hypothesis glue
 
+RECENT = None                # records of the sessions this worker process ran most recently (process history)
+FIRST = []                   # ... and of the first sessions it ran
 LAST_SESSION = None          # the session of the most recently executed example (the minimal one after shrinking)
 TASK_STATS = None            # Stats of the running task
 TASK_DIGEST = None           # running digest over all sessions of the task (determinism self-test)
@@ -239,6 +241,13 @@ def session_started(sess):
 
 def session_closed(sess):
     global TASK_DIGEST
+    if RECENT is not None:
+        rec = (id(sess), {'engine': sess.ENGINE, 'props': sorted(sess.props), 'world': sess.world_initial,
+                          'oplog': sess.oplog})
+        if len(FIRST) < 6:
+            FIRST.append(rec)
+        else:
+            RECENT.append(rec)
     if TASK_STATS is not None:
         TASK_STATS.merge_json(sess.st.to_json())
     if TASK_DIGEST is not None:
@@ -262,7 +271,10 @@ def run_machine(machine_cls, seed, max_examples, step_count, shrink_seconds):
 
 def _task(spec):
     """Runs in a forked worker: one Hypothesis machine run with a fixed example budget."""
-    global TASK_STATS, TASK_DIGEST, LAST_SESSION
+    global TASK_STATS, TASK_DIGEST, LAST_SESSION, RECENT, FIRST
+    from collections import deque
+    RECENT = deque(maxlen=5)
+    FIRST = []
     engine_mod, prop, tier, k, seed, cfg = spec
     faulthandler.dump_traceback_later(cfg['task_timeout'], exit=True)
     TASK_STATS = Stats()
@@ -278,6 +290,10 @@ def _task(spec):
     except Violation:
         out['status'] = 'violation'
         out['record'] = LAST_SESSION.record() if LAST_SESSION is not None else None
+        # the sessions this process ran just before: needed when the violation depends on process-wide state
+        # (module-level caches) left behind by an earlier session of the same process
+        out['prefix_first'] = [r for i, r in FIRST if LAST_SESSION is None or i != id(LAST_SESSION)]
+        out['prefix'] = [r for i, r in RECENT if LAST_SESSION is None or i != id(LAST_SESSION)]
         if LAST_SESSION is None or LAST_SESSION.violation is None:
             out['status'] = 'harness'
             out['error'] = 'violation raised but the last executed example holds none:\n' + traceback.format_exc()
@@ -297,19 +313,60 @@ def _task(spec):
     return out
 
 
+def _task_in_own_process(spec, conn):
+    try:
+        conn.send(_task(spec))
+    except BaseException:       # noqa
+        conn.send({'k': spec[3], 'seed': spec[4], 'status': 'harness', 'error': traceback.format_exc(),
+                   'stats': Stats().to_json(), 'digest': '', 'wall': 0.0})
+    finally:
+        conn.close()
+
+
 def run_tasks(engine_mod, prop, tier, cfg, verif_seed, jobs, engine_name):
+    """one forked process per task (a task is one simulated process history: nothing leaks from task to task), at most
+    `jobs` at a time; results are returned in task order whatever the scheduling"""
     specs = [(engine_mod, prop, tier, k, task_seed(verif_seed, engine_name + ':' + prop, tier, k), cfg)
              for k in range(cfg['tasks'])]
-    results = []
     ctx = multiprocessing.get_context('fork')
-    try:
-        with ProcessPoolExecutor(max_workers=jobs, mp_context=ctx) as ex:
-            for r in ex.map(_task, specs):
-                results.append(r)
-    except BrokenProcessPool:
-        results.append({'k': -1, 'seed': -1, 'status': 'harness', 'error': 'worker died (timeout or crash)',
-                        'stats': Stats().to_json(), 'digest': '', 'wall': 0.0})
-    return results
+    results = {}
+    running = {}
+    todo = list(specs)
+    while todo or running:
+        while todo and len(running) < jobs:
+            spec = todo.pop(0)
+            parent, child = ctx.Pipe(duplex=False)
+            proc = ctx.Process(target=_task_in_own_process, args=(spec, child))
+            proc.start()
+            child.close()
+            running[spec[3]] = (proc, parent, spec)
+        ready = multiprocessing.connection.wait([c for _, c, _ in running.values()], timeout=1.0)
+        for k, (proc, conn, spec) in list(running.items()):
+            if conn in ready:
+                try:
+                    results[k] = conn.recv()
+                except EOFError:
+                    results[k] = {'k': k, 'seed': spec[4], 'status': 'harness', 'stats': Stats().to_json(), 'digest': '',
+                                  'error': f'worker died without a result (exit code {proc.exitcode}: timeout or crash)',
+                                  'wall': 0.0}
+                proc.join()
+                conn.close()
+                del running[k]
+            elif not proc.is_alive():
+                proc.join()
+                if conn.poll():
+                    # the result arrived between wait() and the liveness test
+                    try:
+                        results[k] = conn.recv()
+                    except EOFError:
+                        pass
+                if k not in results:
+                    results[k] = {'k': k, 'seed': spec[4], 'status': 'harness', 'stats': Stats().to_json(), 'digest': '',
+                                  'error': f'worker died without a result (exit code {proc.exitcode}: timeout or crash)',
+                                  'wall': 0.0}
+                conn.close()
+                del running[k]
+    return [results[spec[3]] for spec in specs]
 
 
 # --------------------------------------------------------------------------------------------------------------
